@@ -24,6 +24,8 @@ mod syscommand_runner;
 mod system_command_spawning;
 mod system_event_reader;
 mod utils;
+#[cfg(feature = "verif")]
+pub(crate) mod verif_access;
 mod world_reactor;
 
 //API exports
